@@ -52,6 +52,7 @@ class TracepointConfigService:
     def __init__(self) -> None:
         """Create new tracepoint config service."""
         self._custom: List['Trigger'] = []
+        self._custom_ids: Dict[str, 'Trigger'] = {}
         self._tracepoint_config: List['Trigger'] = []
         self._current_hash = None
         self._last_update = 0
@@ -161,10 +162,14 @@ class TracepointConfigService:
         :param metrics: the tracepoint metrics
         :return: the new TracePointConfig
         """
-        config = build_trigger(str(uuid.uuid4()), path, line, args, watches, metrics)
+        # the id of the registration has to be unique to this call. The location id (path#line) is not, as we can
+        # have more than one tracepoint registered on the same location.
+        tp_id = str(uuid.uuid4())
+        config = build_trigger(tp_id, path, line, args, watches, metrics)
         self._custom.append(config)
+        self._custom_ids[tp_id] = config
         self.__trigger_update(None, None)
-        return config.id
+        return tp_id
 
     def remove_custom(self, _id: str):
         """
@@ -172,8 +177,12 @@ class TracepointConfigService:
 
         :param _id: the id of the config to remove
         """
+        config = self._custom_ids.pop(_id, None)
+        if config is None:
+            return
+        # remove exactly the trigger created by this registration, not one that is only equal to it
         for idx, cfg in enumerate(self._custom):
-            if cfg.id == _id:
+            if cfg is config:
                 del self._custom[idx]
                 self.__trigger_update(None, None)
                 return
